@@ -181,6 +181,88 @@ theorem C02_annotateEn_only_o (cc : CharClasses) (toks : List Tok) :
     OnlyAt (· == ['o']) toks (Language.english.annotate cc toks) :=
   annotateEnLoop_onlyAt _ _ _ _ _ _
 
+/-! ### the French pass never hides anything but the word `neuf` -/
+
+theorem mem_enumFrom {α} [Inhabited α] : ∀ (l : List α) (n k : Nat) (x : α), (k, x) ∈ enumFrom n l →
+    n ≤ k ∧ l[k - n]? = some x
+  | [], _, _, _, h => by cases h
+  | y :: ys, n, k, x, h => by
+    rw [enumFrom, List.mem_cons] at h
+    cases h with
+    | inl e =>
+      have e1 : k = n := congrArg Prod.fst e
+      have e2 : x = y := congrArg Prod.snd e
+      subst e1; subst e2; simp
+    | inr h' =>
+      obtain ⟨h1, h2⟩ := mem_enumFrom ys (n + 1) k x h'
+      refine ⟨by omega, ?_⟩
+      have : k - n = (k - (n + 1)) + 1 := by omega
+      rw [this, List.getElem?_cons_succ]; exact h2
+
+theorem lowerAt_setNan' (toks : List Tok) (k i : Nat) : lowerAt (setNan toks k) i = lowerAt toks i := by
+  have h := congrArg (fun l => (l[i]?).map (fun p : Word × Word × Nat × Nat => p.2.1)) (setNan_core toks k)
+  simp only [List.getElem?_map, Option.map_map] at h
+  unfold lowerAt
+  rw [List.getD_eq_getElem?_getD, List.getD_eq_getElem?_getD]
+  cases h1 : (setNan toks k)[i]? with
+  | none =>
+    cases h2 : toks[i]? with
+    | none => rfl
+    | some t => rw [h1, h2] at h; cases h
+  | some t' =>
+    cases h2 : toks[i]? with
+    | none => rw [h1, h2] at h; cases h
+    | some t =>
+      rw [h1, h2] at h
+      simp only [Option.map_some, Function.comp, core, Option.some.injEq] at h
+      simpa using h
+
+theorem annotateFrLoop_onlyAt (apply : Word → DS → Res × DS) (isDecSep : Word → Bool) (tw : List Nat)
+    (p : Word → Bool) :
+    ∀ (is : List Nat) (b : DS) (toks : List Tok), (∀ i ∈ is, p (lowerAt toks (tw.getD i 0)) = true) →
+      OnlyAt p toks (annotateFrLoop apply isDecSep tw is b toks)
+  | [], _, toks, _ => OnlyAt.refl _ toks
+  | i :: rest, b, toks, hp => by
+    have hrest : ∀ k ∈ rest, p (lowerAt toks (tw.getD k 0)) = true := fun k hk => hp k (by simp [hk])
+    have hrest' : ∀ k ∈ rest, p (lowerAt (setNan toks (tw.getD i 0)) (tw.getD k 0)) = true := by
+      intro k hk; rw [lowerAt_setNan']; exact hrest k hk
+    have hi : p (lowerAt toks (tw.getD i 0)) = true := hp i (by simp)
+    unfold annotateFrLoop
+    split
+    · exact annotateFrLoop_onlyAt apply isDecSep tw p rest _ _ hrest
+    · dsimp only
+      repeat' split
+      all_goals first
+        | exact annotateFrLoop_onlyAt apply isDecSep tw p rest _ _ hrest
+        | exact (OnlyAt.setNan p toks _ hi).trans (annotateFrLoop_onlyAt apply isDecSep tw p rest _ _ hrest')
+
+/-- **the French `neuf` pass changes the hint of no token other than a `neuf`** (whatever `apply` and
+`is_decimal_sep` answer) -/
+theorem C02_annotateFr_only_neuf (cc : CharClasses) (toks : List Tok) :
+    OnlyAt (· == w!"neuf") toks (Language.french.annotate cc toks) := by
+  show OnlyAt _ toks (annotateFr cc Fr.lang.apply Fr.lang.isDecSep toks)
+  unfold annotateFr
+  apply annotateFrLoop_onlyAt
+  intro k hk
+  obtain ⟨⟨k', i⟩, hmem, hsome⟩ := List.mem_filterMap.1 hk
+  dsimp only at hsome
+  split at hsome
+  · rename_i hneuf
+    have hk' : k' = k := by simpa using hsome
+    subst hk'
+    obtain ⟨_, hget⟩ := mem_enumFrom _ 0 k' i hmem
+    have : (indicesWhere (fun t => !(t.lower.all (fun c => !cc.isAlphanumeric c))) toks).getD k' 0 = i := by
+      rw [List.getD_eq_getElem?_getD]
+      simp only [Nat.sub_zero] at hget
+      rw [hget]; rfl
+    rw [this]; exact hneuf
+  · cases hsome
+
+/-- the five other languages do not annotate at all -/
+theorem C02_annotate_noop (cc : CharClasses) (l : Language) (hen : l ≠ .english) (hfr : l ≠ .french)
+    (toks : List Tok) : l.annotate cc toks = toks := by
+  cases l <;> first | rfl | exact absurd rfl hen | exact absurd rfl hfr
+
 /-- **C02 for `replace_numbers_in_text` itself, no premise left**: for every language, threshold, text and
 char classes, the kept pieces of the tokens concatenate to the original text -/
 theorem C02_text_pieces_language (cc : CharClasses) (l : Language) (thr : Nat → Bool) (s : Word) :
